@@ -27,7 +27,7 @@ def run(ctx):
     ctx.failures = []
     b.l1(ctx)
     b.graph(ctx, q)
-    b.traces(ctx, 3000 if q else 60000)
+    b.traces(ctx, 2500 if q else 60000)
     only(ctx, ["untouched"])
     ctx.failures = frame_fail + ctx.failures
     ctx.cov["rule"] = ("failed proofs: the Backward.tla query edges, simulated programs and recorded random programs of C09 (see there), "
